@@ -826,7 +826,11 @@ def x_load(c):
     c.rz("ValueError", "json.load of malformed JSON / undecodable bytes", pure=False)
     c.rz("OSError", "read failure", pure=False)
     c.rz("TypeError", "json.load of a wrong argument", pure=False)
-    c.ret(None, ("type", c.term, JSON_TYPES), pure=False)
+    t = None
+    if c.callee.endswith("loads") and len(c.args) == 1 and not c.kwargs and is_call(c.args[0], "method:read") and len(c.args[0][2]) == 1:
+        # json.loads(fp.read()) is what json.load(fp) does: one term for both spellings
+        t = CallT("ext:json.load", [c.args[0][2][0]])
+    c.ret(t, ("type", t if t is not None else c.term, JSON_TYPES), pure=False)
 
 
 @ext("copy.deepcopy", "copy.copy")
@@ -1077,6 +1081,59 @@ def x_reduce(c):
             c.outs.append((s1, "val", acc))
         return
     return unknown_callable(c, "functools.reduce over a non-literal sequence")
+
+
+@ext("dataclasses.replace")
+def x_dc_replace(c):
+    """replace(record, **changes): a new record with the given fields changed"""
+    rec = c.args[0] if c.args else None
+    if isinstance(rec, tuple) and len(rec) == 3 and rec[0] == "nt" and len(c.args) == 1:
+        ci = c.w.prog.classes.get(rec[1])
+        names = [n for n, _d in ci.nt_fields()] if ci is not None else []
+        vals = dict(zip(names, rec[2]))
+        for n, v in c.kwargs:
+            if n not in vals:
+                c.rz("TypeError", "replace() got an unexpected field %s" % n)
+                return
+            vals[n] = v
+        new = ("nt", rec[1], tuple(vals[n] for n in names))
+        post = c.w.prog.find_method(rec[1], "__post_init__")
+        if post is not None and post[0] == "repo":
+            from .calls import apply_repo
+
+            for s2, k2, p2 in apply_repo(c.w, c.e, post[1], None, (new,), (), c.s):
+                c.outs.append((s2, "val", new) if k2 == "val" else (s2, k2, p2))
+            return
+        c.ret(new)
+        return
+    return unknown_callable(c, "dataclasses.replace of a value that is not a tracked record")
+
+
+@ext("itertools.starmap", "itertools.filterfalse")
+def x_starmap(c):
+    """starmap(f, xs) == (f(*x) for x in xs); filterfalse(p, xs) == (x for x in xs if not p(x))"""
+    import ast as _ast
+
+    e = c.e
+    if len(e.args) == 2 and not e.keywords:
+        var = _ast.Name(id="$m", ctx=_ast.Load())
+        if c.callee.endswith("starmap"):
+            elt = _ast.Call(func=e.args[0], args=[_ast.Starred(value=var, ctx=_ast.Load())], keywords=[])
+            ifs = []
+        else:
+            elt = var
+            ifs = [_ast.UnaryOp(op=_ast.Not(), operand=_ast.Call(func=e.args[0], args=[var], keywords=[]))]
+        comp = _ast.comprehension(target=_ast.Name(id="$m", ctx=_ast.Store()), iter=e.args[1], ifs=ifs, is_async=0)
+        ge = _ast.GeneratorExp(elt=elt, generators=[comp])
+        for x in _ast.walk(ge):
+            if not hasattr(x, "lineno"):
+                _ast.copy_location(x, e)
+        _ast.fix_missing_locations(ge)
+        for s2, k2, p2 in c.w.expr(ge, c.s):
+            s2.env.pop("$m", None)
+            c.outs.append((s2, k2, p2))
+        return
+    c.ret(Fresh(c.callee[4:]), pure=False)
 
 
 @ext("itertools.chain")
@@ -1475,6 +1532,23 @@ def _mutator(c, name):
     ts = c.types(c.recv)
     if ts is not None and ts <= {"obj:hasher"} and name == "update":
         return m_hasher_update(c)
+    if name == "update" and len(c.args) == 1 and not c.kwargs and isinstance(c.args[0], tuple) and len(c.args[0]) == 3 and c.args[0][0] == "gen":
+        # M.update(<generator of pairs>)  ==  for k, v in <generator>: M[k] = v
+        import ast as _ast
+
+        s0 = c.s.copy()
+        s0.env["$upd_m"], s0.env["$upd_g"] = c.recv, c.args[0]
+        tgt = _ast.Tuple(elts=[_ast.Name(id="$uk", ctx=_ast.Store()), _ast.Name(id="$uv", ctx=_ast.Store())], ctx=_ast.Store())
+        store = _ast.Assign(targets=[_ast.Subscript(value=_ast.Name(id="$upd_m", ctx=_ast.Load()), slice=_ast.Name(id="$uk", ctx=_ast.Load()), ctx=_ast.Store())], value=_ast.Name(id="$uv", ctx=_ast.Load()))
+        loop = _ast.For(target=tgt, iter=_ast.Name(id="$upd_g", ctx=_ast.Load()), body=[store], orelse=[])
+        for x in _ast.walk(loop):
+            _ast.copy_location(x, c.e)
+        _ast.fix_missing_locations(loop)
+        for s2, k2, p2 in c.w.stmt(loop, s0):
+            for nm in ("$upd_m", "$upd_g", "$uk", "$uv"):
+                s2.env.pop(nm, None)
+            c.outs.append((s2, "val", C(None)) if k2 == "fall" else (s2, k2, p2))
+        return c.outs
     recv_check(c, own, name)
     if name in ("pop", "remove", "popitem", "__delitem__"):
         c.rz("KeyError", ".%s() of a missing key" % name, pure=False)
